@@ -4,6 +4,7 @@ loaders, DIP re-parse), and the oracle real tool vs environment."""
 import atexit
 import json
 import os
+import re
 import shutil
 import subprocess
 import tempfile
@@ -47,7 +48,8 @@ EXPLANATION = ("theorems: decimal print/read identity for all integers; every st
                "exporters write (backslash escapes: C/C++/Rust, doubled quote: Fortran, escaped double-quoted word: Bash); the bracket "
                "machine inverts the nested-list printer for all trees; typed initialiser round trip for C/C++ and Rust for every "
                "nested value of every kind; whole C, C++ and Rust files (guard/include frame, line splitting, const/constexpr/#define "
-               "and pub const lines) read back as the expected symbols for every parameter list and option; Fortran reshape with order=[k..1] undoes the row-major element list for every rectangular "
+               "and pub const lines) read back as the expected symbols for every parameter list and option; Bash files of scalars and "
+               "one-dimensional arrays read back as the expected variables; Fortran reshape with order=[k..1] undoes the row-major element list for every rectangular "
                "value of any rank (and the default order does not); type tables (regenerated from _parse_dtype and measured with the "
                "compilers) give same class/width/signedness except the listed lacking types; selection characterisation; rename "
                "non-injectivity; shaping")
@@ -63,10 +65,61 @@ def tmpdir():
     return _TMP
 
 
-def sh(cmd, cwd=None, timeout=120, input=None):
+class ToolFailure(Exception):
+    """A tool could not do its job for a reason that has nothing to do with the exported text (killed, out of
+    memory, no output at all): the run is void (exit 2), it is never a verdict about the property."""
+
+
+# every child process gets an explicit UTF-8 locale: nothing may depend on the locale of the caller
+CHILD_ENV = dict(os.environ, LC_ALL="C.UTF-8", LANG="C.UTF-8", LANGUAGE="")
+
+
+def sh(cmd, cwd=None, timeout=300, input=None):
     p = subprocess.run(cmd, cwd=cwd, stdout=subprocess.PIPE, stderr=subprocess.PIPE, text=True,
-                       timeout=timeout, input=input, errors="replace", encoding="utf-8")
+                       timeout=timeout, input=input, errors="replace", encoding="utf-8", env=CHILD_ENV)
     return p.returncode, p.stdout, p.stderr
+
+
+TRANSIENT = re.compile(r"internal compiler error|Killed|[Oo]ut of memory|[Cc]annot allocate|No space left|Resource temporarily "
+                       r"unavailable|Text file busy|Bus error|Segmentation fault|terminated with signal|signal: |cannot execute|"
+                       r"Too many open files|Input/output error|Cannot fork|failed to spawn|could not exec")
+DIAGNOSTIC = re.compile(r"\berror\b|\bError\b")
+
+
+def compile_src(cmd, cwd):
+    """Run a compiler.  (True, '') / (False, diagnostics) for a deterministic verdict of the compiler about the
+    source; ToolFailure when the compiler itself failed (signal, resources, no diagnostic) even after retries.
+    A rejection is only believed when it is reproduced by a second run."""
+    last = ""
+    for attempt in range(3):
+        rc, out, err = sh(cmd, cwd=cwd)
+        if rc == 0:
+            return True, ""
+        last = err or out
+        if rc < 0 or TRANSIENT.search(last) or not DIAGNOSTIC.search(last):
+            continue                      # not a statement about the source: try again
+        rc2, out2, err2 = sh(cmd, cwd=cwd)
+        if rc2 == 0:
+            return True, ""
+        if rc2 > 0 and DIAGNOSTIC.search(err2 or out2) and not TRANSIENT.search(err2 or out2):
+            return False, err2 or out2
+        last = err2 or out2
+    raise ToolFailure("%s failed without a reproducible diagnostic: %s" % (cmd[0], last[-400:]))
+
+
+def run_exe(exe, cwd):
+    """Output of a compiled printer program; it must end with the line `end`.  None when the program fails
+    reproducibly (that is a verdict about the exported file), ToolFailure when it fails only sometimes."""
+    results = []
+    for attempt in range(3):
+        rc, out, err = sh([exe], cwd=cwd, timeout=120)
+        ok = rc == 0 and out.rstrip().endswith("end")
+        if ok:
+            return out
+        results.append(rc)
+        if len(results) >= 2 and all(r > 0 for r in results):
+            return None                   # the same ordinary failure twice
+    raise ToolFailure("%s did not run to its end: rc %s" % (exe, results))
 
 
 # =============================================================== translator
@@ -156,6 +209,7 @@ C_PROBE = r'''
   printf("%%s|%%d|%%d|%%g\n", name, (int)sizeof(T)*8, (int)(m < 0), (double)x); } while (0)
 int main() {
 %(body)s
+  printf("end\n");
   return 0;
 }
 '''
@@ -182,6 +236,7 @@ def measure_targets(rows):
     for i, t in enumerate(ts):
         cls = "logical" if t.startswith("logical") else ("real" if t.startswith("real") else "integer")
         lines.append("  print '(A,A,I0,A,A)', '%s', '|', storage_size(v%d), '|', '%s'" % (t, i, cls))
+    lines.append("  print '(A)', 'end'")
     lines.append("end program")
     src = os.path.join(d, "probe_f.f90")
     open(src, "w", encoding="utf-8").write("\n".join(lines) + "\n")
@@ -199,6 +254,7 @@ def measure_targets(rows):
         else:
             lines.append('  println!("%s|{}|{}", std::mem::size_of::<%s>()*8, if <%s>::MIN < 0 as %s {"int"} else {"uint"});'
                          % (t, t, t, t))
+    lines.append('  println!("end");')
     lines.append("}")
     src = os.path.join(d, "probe_r.rs")
     open(src, "w", encoding="utf-8").write("\n".join(lines) + "\n")
@@ -208,14 +264,18 @@ def measure_targets(rows):
 
     def runjob(j):
         backend, cmd, exe = j
-        rc, out, err = sh(cmd)
-        if rc != 0:
-            raise RuntimeError("type probe does not compile for %s: %s" % (backend, err[-800:]))
-        rc, out, err = sh([exe])
+        ok, err = compile_src(cmd, None)
+        if not ok:
+            raise ToolFailure("type probe does not compile for %s: %s" % (backend, err[-800:]))
+        out = run_exe(exe, None)
+        if out is None:
+            raise ToolFailure("type probe does not run for %s" % backend)
         return backend, out
     with ThreadPoolExecutor(4) as ex:
         for backend, out in ex.map(runjob, jobs):
             for ln in out.splitlines():
+                if ln.strip() == "end":
+                    continue
                 f = [x.strip() for x in ln.split("|")]
                 if backend in ("c", "cpp"):
                     name, bits, signed, half = f[0], int(f[1]), int(f[2]), float(f[3])
@@ -261,7 +321,12 @@ def render_tables(rows, info, dip_types):
 
 def gen_tables(ctx):
     rows = probe_types()
-    info = measure_targets(rows)
+    try:
+        info = measure_targets(rows)
+    except (ToolFailure, subprocess.TimeoutExpired) as e:
+        # a compiler that cannot be run says nothing about the type tables: void run, not a broken obligation
+        print("TOOL-FAILURE: %s" % e)
+        raise SystemExit(2)
     dip_types = probe_dip_types()
     ctx.extra["type_rows"] = len(rows)
     changed = []
@@ -578,6 +643,7 @@ C_MAIN = r'''
 static void pstr(const char *s) { size_t n = strlen(s); printf("e s "); for (size_t i = 0; i < n; i++) printf("%%02x", (unsigned char)s[i]); printf("\n"); }
 int main(void) {
 %(body)s
+  printf("end\n");
   return 0;
 }
 '''
@@ -672,11 +738,11 @@ def run_c(workdir, tag, text, syms, cpp):
     open(hdr, "w", encoding="utf-8").write(text + "\n")
     body = "\n".join(c_body(i, s) for i, s in syms)
     open(src, "w", encoding="utf-8").write(C_MAIN % {"header": os.path.basename(hdr), "body": body})
-    rc, out, err = sh([comp, "-w", "-Werror=int-conversion", "-o", exe, src], cwd=workdir)
-    if rc != 0:
+    ok, err = compile_src([comp, "-w", "-Werror=int-conversion", "-finput-charset=UTF-8", "-o", exe, src], workdir)
+    if not ok:
         return None, err
-    rc, out, err = sh([exe], cwd=workdir, timeout=20)
-    if rc != 0:
+    out = run_exe(exe, workdir)
+    if out is None:
         return None, "run failed"
     return parse_obs(out), ""
 
@@ -773,14 +839,15 @@ def run_f(workdir, tag, text, syms, module):
     src = os.path.join(workdir, "%s.f90" % tag)
     exe = os.path.join(workdir, "%s.x" % tag)
     body = "\n".join(f_body(i, s) for i, s in syms)
-    prog = "program c19_main\n  use c19_printers\n  use %s\n  implicit none\n  integer :: c19_i0, c19_i1, c19_i2, c19_i3\n%s\nend program\n" % (module, body)
+    prog = ("program c19_main\n  use c19_printers\n  use %s\n  implicit none\n  integer :: c19_i0, c19_i1, c19_i2, c19_i3\n%s\n"
+            "  print '(A)', 'end'\nend program\n") % (module, body)
     open(src, "w", encoding="utf-8").write(text + "\n" + F_PRINTERS + prog)
-    rc, out, err = sh(["gfortran", "-w", "-ffree-line-length-none", "-J", os.path.join(workdir, tag + "_mod"), "-o", exe, src],
-                      cwd=workdir)
-    if rc != 0:
+    ok, err = compile_src(["gfortran", "-w", "-ffree-line-length-none", "-J", os.path.join(workdir, tag + "_mod"), "-o", exe, src],
+                          workdir)
+    if not ok:
         return None, err
-    rc, out, err = sh([exe], cwd=workdir, timeout=20)
-    if rc != 0:
+    out = run_exe(exe, workdir)
+    if out is None:
         return None, "run failed"
     res = {}
     cur = None
@@ -860,6 +927,7 @@ impl C19P for &str { fn c19_p(&self) { print!("e str "); for c19_b in self.bytes
 impl<C19T: C19P, const C19N: usize> C19P for [C19T; C19N] { fn c19_p(&self) { println!("open {}", C19N); for c19_x in self.iter() { c19_x.c19_p(); } println!("close"); } }
 fn main() {
 %(body)s
+  println!("end");
 }
 '''
 
@@ -872,11 +940,11 @@ def run_rust(workdir, tag, text, syms):
     body = "\n".join('  println!("sym %d"); println!("size {}", std::mem::size_of_val(&%s)); %s.c19_p();' % (i, s["name"], s["name"])
                      for i, s in syms)
     open(src, "w", encoding="utf-8").write(R_MAIN % {"file": os.path.basename(cfg), "body": body})
-    rc, out, err = sh(["rustc", "--edition", "2021", "-C", "debuginfo=0", "-C", "opt-level=0", "-o", exe, src], cwd=workdir)
-    if rc != 0:
+    ok, err = compile_src(["rustc", "--edition", "2021", "-C", "debuginfo=0", "-C", "opt-level=0", "-o", exe, src], workdir)
+    if not ok:
         return None, err
-    rc, out, err = sh([exe], cwd=workdir, timeout=20)
-    if rc != 0:
+    out = run_exe(exe, workdir)
+    if out is None:
         return None, "run failed"
     res = {}
     cur = None
@@ -979,10 +1047,19 @@ def read_bash(workdir, tag, text, syms):
         lines.append("for c19_k_ in \"${!%s[@]}\"; do printf 'k\\0%%s\\0v\\0%%s\\0' \"$c19_k_\" \"${%s[$c19_k_]}\"; done" % (n, n))
         if not whole:
             lines.append(")")
+    lines.append("printf 'end\\0'")
     script = os.path.join(workdir, "%s_main.sh" % tag)
     open(script, "w", encoding="utf-8").write("\n".join(lines) + "\n")
-    p = subprocess.run(["bash", "--norc", "--noprofile", script], cwd=workdir, stdout=subprocess.PIPE,
-                       stderr=subprocess.DEVNULL, timeout=30, env={"PATH": "/usr/bin:/bin"})
+    for attempt in range(3):
+        p = subprocess.run(["bash", "--norc", "--noprofile", script], cwd=workdir, stdout=subprocess.PIPE,
+                           stderr=subprocess.DEVNULL, timeout=120,
+                           env={"PATH": "/usr/bin:/bin", "LC_ALL": "C.UTF-8", "LANG": "C.UTF-8"})
+        if p.stdout.endswith(b"end\0"):
+            break
+    else:
+        if whole:
+            return ["err"] * len(syms)       # the sourced file itself ended the shell (exit / syntax): a verdict
+        raise ToolFailure("bash did not run the reading script to its end (rc %s)" % p.returncode)
     toks = p.stdout.decode("utf-8", "replace").split("\0")
     res = ["err"] * len(syms)
     cur = None
@@ -1268,7 +1345,7 @@ def corpus_cases(dip_types):
     out = []
     path = core.VERIF / "corpus" / "C19" / "cases.json"
     if path.exists():
-        for c in json.loads(path.read_text()):
+        for c in json.loads(path.read_text(encoding="utf-8")):
             r = parse_env(c["source"])
             if r is None:
                 continue
@@ -1278,11 +1355,37 @@ def corpus_cases(dip_types):
     return out
 
 
+def decode_cp(o):
+    """driver output: {"cp": [code points]} -> str (the driver writes ASCII only)"""
+    if isinstance(o, dict):
+        if set(o) == {"cp"} and isinstance(o["cp"], list):
+            return "".join(chr(x) for x in o["cp"])
+        return {k: decode_cp(v) for k, v in o.items()}
+    if isinstance(o, list):
+        return [decode_cp(x) for x in o]
+    return o
+
+
+def _ascii(s):
+    return s.encode("ascii", "backslashreplace").decode("ascii") if isinstance(s, str) else s
+
+
+def ascii_reports(ctx):
+    """report texts are printed by the caller: keep them ASCII so that printing cannot fail in any locale"""
+    if getattr(ctx, "_c19_ascii", False):
+        return
+    ctx._c19_ascii = True
+    v0, d0 = ctx.violation, ctx.disagreement
+    ctx.violation = lambda signature, what, replay: v0(signature, _ascii(what), replay)
+    ctx.disagreement = lambda stream, replay, detail="": d0(stream, replay, _ascii(detail))
+
+
 def run_cases(ctx, cases, workers=12):
+    ascii_reports(ctx)
     info = target_info()
     work = tmpdir()
     reqs = [c.request() for c in cases]
-    res = ctx.driver.ask_many(reqs) if reqs else []
+    res = [decode_cp(r) for r in ctx.driver.ask_many(reqs)] if reqs else []
     impl = [real_export(c.env, c.backend, c.opts, c.query, c.tags) for c in cases]
 
     def real_read(i):
@@ -1636,7 +1739,11 @@ def replay(ctx, payload):
         print(out[-2000:])
         return 2
     case = Case(r["source"], pe[0], pe[1], r["backend"], r.get("opts") or {}, r.get("query"), r.get("tags"), origin="replay")
-    run_cases(ctx, [case])
+    try:
+        run_cases(ctx, [case])
+    except (ToolFailure, subprocess.TimeoutExpired) as e:
+        print("TOOL-FAILURE: %s" % e)
+        return 2
     known = {f["signature"] for f in core.load_known().get("findings", []) if f["property"] == "C19"}
     rc = 0
     for v in ctx.violations:
